@@ -31,8 +31,8 @@ def engine_for(prop):
     if prop in ("C09", "C10", "C13", "C18"):
         from . import hist, props
 
-        return (lambda seed: hist.run_seed(prop, seed, props.BASE[prop]),
-                lambda steps, probe_seed: hist.run_steps(prop, steps, probe_seed, props.BASE[prop]))
+        return (lambda seed: hist.run_seed(prop, seed, props.base_cfg(prop)),
+                lambda steps, probe_seed: hist.run_steps(prop, steps, probe_seed, props.base_cfg(prop)))
     if prop == "C12":
         from . import c12
 
@@ -108,6 +108,7 @@ def main(argv):
     if argv and argv[0] == "--digests":
         return digests_main(argv[1], [int(x) for x in argv[2:]])
     prop, tier = argv[0], argv[1]
+    os.environ["RSIM_TIER"] = tier
     opts = dict(TIERS[tier])
     if prop == "C20":
         opts["wall"] = 240
